@@ -108,10 +108,37 @@ def prec_lattice(tier):
     out += choice_lattice()
     out += setsym_lattice()
     out += edge_lattice()
+    out += regress_lattice()
     if tier == "quick":
         # fixed, seed-independent slice
         keep = [p for k, p in enumerate(out) if p["family"] != "F-prec" or k % 11 == 0]  # stride coprime with every factor
         return keep
+    return out
+
+
+# ------------------------------------------------------------------ programs on which a deeper run found a defect
+def regress_lattice():
+    """Generated programs on which a thorough-tier run exposed a defect of /repo (since repaired): kept in
+    every tier so that the defect is reported again if it ever returns."""
+    out = []
+    # C02, fixed 5af4a42: the default selection of the second choice, evaluated before the first choice's
+    # user line is applied, differs from the stored one: the loader took two default-marked member lines for a
+    # double assignment
+    A, B = lambda x, y: ["&&", x, y], lambda x, y: ["||", x, y]  # noqa: E731
+    ents = [
+        {"k": "choice", "id": "CH1", "title": "ch1", "prompt": [Y], "dep": Y, "defaults": [],
+         "children": [mk_config("B1", "bool", prompt=Y), mk_config("B2", "bool", prompt=Y)]},
+        {"k": "choice", "id": "<choice 2>", "title": "ch2", "prompt": [Y], "dep": B(S("B1"), S("B2")),
+         "defaults": [{"m": "B4", "c": B(A(S("B2"), ["!", S("B1")]), S("B1"))}, {"m": "B3", "c": Y}],
+         "children": [mk_config("B3", "bool", prompt=Y), mk_config("B4", "bool", prompt=A(S("B2"), S("B2")), dep=["!", S("B1")])]},
+        mk_config("I5", "int", defaults=[{"v": C("5"), "c": Y}]),
+        mk_config("B6", "bool", prompt=B(S("B1"), ["!=", S("I5"), C("0")]), dep=B(A(["=", S("I5"), C("1")], ["!", S("B3")]), S("B3")),
+                  defaults=[{"v": Y, "c": Y}, {"v": ["n"], "c": Y}]),
+    ]
+    order = [["ch", "CH1"], ["s", "B1"], ["s", "B2"], ["ch", "<choice 2>"], ["s", "B3"], ["s", "B4"], ["s", "I5"], ["s", "B6"]]
+    vars_ = [{"n": "CH1", "kind": "choice", "cands": [NOVAL, "B1", "B2"]}, {"n": "<choice 2>", "kind": "choice", "cands": [NOVAL, "B3", "B4"]},
+             {"n": "B6", "kind": "sym", "cands": [NOVAL, "y", "n"]}]
+    out.append({"prog": ents, "ord": order, "vars": vars_, "family": "F-regress", "point": {"found_by": "C02 thorough", "fixed": "5af4a42"}})
     return out
 
 
